@@ -217,3 +217,34 @@ package auth
 // released in between (an edit that arrives while the provider writes would otherwise be cleared without having been written)
 //@   assert[call:auth.UserProvider.Flush] held(&m.lock)
 //@   ensures ghostInt(&m.lock, "sections") == old(ghostInt(&m.lock, "sections")) + 1
+
+// ---- C11: a token cannot be computed from identifiers the server discloses -------------------------------------------------
+// session ids, nonces and stream ids all come from the process-wide counter security.NewID() and are shown to clients
+// that never authenticate: token material must not come from that counter. Stated structurally: NewToken draws its two
+// token strings from newTokenString, which calls only the operating system's random source and the hex encoder.
+//@ import "crypto/rand"
+//@ import "encoding/hex"
+//@ import "time"
+// assumed (crypto/rand documentation): Read fills b entirely and does not fail
+//@ extern func rand.Read(b []byte) (n int, err error)
+//@   modifies b[:]
+//@   ensures err == nil && n == len(b)
+//@ extern func hex.EncodeToString(src []byte) (s string)
+//@   modifies
+//@ extern func time.Now() (t time.Time)
+//@   modifies
+//@ extern func (t time.Time) Add(d time.Duration) (r time.Time)
+//@   modifies
+//@ extern func (t time.Time) Unix() (n int64)
+//@   modifies
+//@ extern func (m *sync.Map) Store(key interface{}, value interface{}) ()
+//@   modifies ghostAll("misc")
+//@ func newTokenString() (s string)
+//@   calls_only crypto/rand.Read, encoding/hex.EncodeToString
+//@   modifies
+//@ func (tm *TokenManager) NewToken(username string) (t *Token)
+//@   calls_only github.com/cnotch/ipchub/provider/auth.newTokenString, time.Now, (time.Time).Add, (time.Time).Unix, (*sync.Map).Store
+//@   requires tm != nil
+//@   modifies ghostAll("misc")
+//@   fresh t
+//@   ensures t != nil && sameStr(t.Username, username)
